@@ -27,7 +27,9 @@ EXPLANATION = (
   "generator: the stored formula text enters the textbuilder chain as received, and every "
   "unindent patch make_formula_body adds for a multi-line string covers exactly the indent "
   "inserted after one newline (start = string start + newline position + 1, end = start + "
-  "len(indent), replacement ''), with positions taken from the text that is patched. Locals are "
+  "len(indent), replacement ''), with positions taken from the text that is patched; (R5) that the list of names "
+  "a rename consults is parsed from the builder of the latest make_module, afresh on every call "
+  "or remembered only until make_module runs again (unconditionally forgotten there). Locals are "
   "compared by the value they stand for, guards are read from the CFG, rename maps may be built "
   "by a comprehension or an accumulating loop. Not decided: astroid's inference coverage "
   "of formula shapes; equivalence of the `if renames:` guard and the per-record emission guard; "
@@ -56,6 +58,7 @@ def check(run, repo, tier):
   r2_registries(run, w)
   r3_positions(run, w)
   r4_unindent(run, w)
+  r5_current_names(run, w)
 
 
 # ------------------------------------------------------------------------------------------ R1
@@ -883,9 +886,111 @@ def _newline_positions(v, name, at, nodev):
   return True
 
 
+# ------------------------------------------------------------------------------------------ R5
+
+def r5_current_names(run, w):
+  """The rename targets come from type inference over the whole generated module (column types,
+  which tables exist), not only from the formula texts: the list a rename consults must be
+  computed from the current usercode."""
+  R5 = run.rule("C16-R5", "the names a rename consults are parsed from the current generated "
+                "code: computed on every call, or kept only until the next make_module", floor=2)
+  gn = H.xfn(w, "gencode.GenCode.grist_names")
+  mm = H.xfn(w, "gencode.GenCode.make_module")
+  v, mv = H.View(gn), H.View(mm)
+
+  def undecided_if_hidden(attr):
+    """a private method that is not followed may assign self.<attr>: then nothing is decided"""
+    for view in (v, mv):
+      for (c, kind, node) in view.unfollowed():
+        if node is not None and any(isinstance(y, ast.Attribute) and y.attr == attr and
+                                    isinstance(y.ctx, ast.Store) for y in ast.walk(node)):
+          raise AnalysisError("%s: self.%s is also written by %s, which is not followed"
+                              % (view.fn.qualname, attr, short(c, 50)))
+  rets = [s for s in walk_no_nested(gn.node) if isinstance(s, ast.Return)]
+  if len(rets) != 1 or rets[0].value is None:
+    raise AnalysisError("%s: one return expected" % gn.qualname)
+
+  def is_parse(e):
+    return isinstance(e, ast.Call) and endswith(gn.name(e) or dotted(e.func) or "",
+                                                "parse_grist_names")
+
+  def self_attr(e):
+    return e.attr if isinstance(e, ast.Attribute) and isinstance(e.value, ast.Name) and \
+        e.value.id == "self" else None
+
+  def unconditional_stores(fn, attr):
+    """CFG nodes of fn that assign self.<attr> and lie on every normal path to the exit"""
+    out = []
+    for n in fn.cfg.nodes:
+      s = n.stmt
+      if n.kind == "stmt" and isinstance(s, ast.Assign) and \
+          any(self_attr(t) == attr for t in s.targets) and \
+          fn.cfg.dominated_by(fn.cfg.exit.id, {n.id}):
+        out.append(n)
+    return out
+
+  builders, memos = set(), set()
+  for (e, at, facts) in v.alternatives(rets[0].value):
+    if is_parse(e):
+      a0 = v.arg(e, 0)
+      src = self_attr(v.res(a0, at=at)) if a0 is not None else None
+      if src is None:
+        raise AnalysisError("%s: cannot tell which code %s parses" % (gn.qualname, short(e)))
+      builders.add(src)
+    elif self_attr(e) is not None:
+      memos.add(self_attr(e))
+    elif isinstance(e, ast.Constant) and e.value is None:
+      continue
+    else:
+      raise AnalysisError("%s: cannot tell where the returned names come from: %s"
+                          % (gn.qualname, short(e)))
+  # what is stored into a memo attribute is itself a fresh parse
+  for n in gn.cfg.nodes:
+    s = n.stmt
+    if n.kind == "stmt" and isinstance(s, ast.Assign):
+      for t in s.targets:
+        if self_attr(t) in memos:
+          val = v.res(s.value)
+          if is_parse(val):
+            a0 = v.arg(val, 0)
+            src = self_attr(v.res(a0)) if a0 is not None else None
+            if src is not None:
+              builders.add(src)
+          elif not (isinstance(val, ast.Constant) and val.value is None):
+            raise AnalysisError("%s: %s is stored into the names memo" % (gn.qualname, short(val)))
+  if not builders:
+    raise AnalysisError("%s: no call of codebuilder.parse_grist_names found" % gn.qualname)
+  for b in sorted(builders):
+    if not unconditional_stores(mm, b):
+      undecided_if_hidden(b)
+    run.ob(R5, mm.qualname, "self.%s = <builder of the new module> on every path" % b,
+           "the code the names are parsed from is the code of the latest make_module",
+           bool(unconditional_stores(mm, b)), fi=mm.fi)
+  if not memos:
+    run.ob(R5, gn.qualname, "return codebuilder.parse_grist_names(self.%s)" % sorted(builders)[0],
+           "the names are parsed afresh on every call", True, fi=gn.fi)
+  for m in sorted(memos):
+    resets = [n for n in unconditional_stores(mm, m)
+              if isinstance(mv.res(n.stmt.value), ast.Constant) and
+              mv.res(n.stmt.value).value is None]
+    cond = [n for n in mm.cfg.nodes if n.kind == "stmt" and isinstance(n.stmt, ast.Assign) and
+            any(self_attr(t) == m for t in n.stmt.targets) and n not in resets]
+    wit = None
+    if not resets:
+      undecided_if_hidden(m)
+      wit = "self.%s is %s" % (m, "only forgotten under a condition: %s"
+                               % short(cond[0].stmt) if cond else "never forgotten by make_module")
+    run.ob(R5, gn.qualname, "self.%s is forgotten whenever make_module runs" % m,
+           "names remembered across calls are discarded with every regeneration of the code "
+           "(a change of column types or of the set of tables changes what a name refers to "
+           "even when no formula text changes)", bool(resets), witness=wit, fi=gn.fi,
+           node=rets[0])
+
+
 # ---------------------------------------------------------------------------------- self-test
 U = "sandbox/grist/useractions.py"
 CB = "sandbox/grist/codebuilder.py"
+GC = "sandbox/grist/gencode.py"
 
 _SEEDED_OLD = """    update_pairs = []
     for i, rec, values in self._bulk_action_iter(table_id, row_ids, col_values):
@@ -1077,6 +1182,55 @@ VARIANTS = [
    "  formula_builder_text = textbuilder.Text(formula, assoc_value)\n",
    "  formula = _newline_re.sub('\\n', formula)\n"
    "  formula_builder_text = textbuilder.Text(formula, assoc_value)\n", "C16-R4"),
+  ("names-memo-never-forgotten", GC,
+   "    return codebuilder.parse_grist_names(self._full_builder)\n",
+   "    if getattr(self, '_names_memo', None) is None:\n"
+   "      self._names_memo = codebuilder.parse_grist_names(self._full_builder)\n"
+   "    return self._names_memo\n", "C16-R5"),
+  ("seeded-names-memo-forgotten-only-when-formula-keys-change", GC,
+   "    self._formula_cache = self._new_formula_cache\n"
+   "    self._new_formula_cache = {}\n"
+   "    self._full_builder = textbuilder.Combiner(fullparts)\n"
+   "    self._user_builder = textbuilder.Combiner(userparts)\n"
+   "    self._usercode = exec_module_text(self._full_builder.get_text())\n"
+   "\n"
+   "  def get_user_text(self):\n"
+   "    \"\"\"Returns the text of the user-facing part of the generated code.\"\"\"\n"
+   "    return self._user_builder.get_text()\n"
+   "\n"
+   "  @property\n"
+   "  def usercode(self):\n"
+   "    \"\"\"Returns the generated usercode module.\"\"\"\n"
+   "    return self._usercode\n"
+   "\n"
+   "  def grist_names(self):\n"
+   "    return codebuilder.parse_grist_names(self._full_builder)\n",
+   "    if self._new_formula_cache.keys() != self._formula_cache.keys():\n"
+   "      self._grist_names = None\n"
+   "    self._formula_cache = self._new_formula_cache\n"
+   "    self._new_formula_cache = {}\n"
+   "    self._full_builder = textbuilder.Combiner(fullparts)\n"
+   "    self._user_builder = textbuilder.Combiner(userparts)\n"
+   "    self._usercode = exec_module_text(self._full_builder.get_text())\n"
+   "\n"
+   "  def get_user_text(self):\n"
+   "    \"\"\"Returns the text of the user-facing part of the generated code.\"\"\"\n"
+   "    return self._user_builder.get_text()\n"
+   "\n"
+   "  @property\n"
+   "  def usercode(self):\n"
+   "    \"\"\"Returns the generated usercode module.\"\"\"\n"
+   "    return self._usercode\n"
+   "\n"
+   "  _grist_names = None\n"
+   "\n"
+   "  def grist_names(self):\n"
+   "    if self._grist_names is None:\n"
+   "      self._grist_names = codebuilder.parse_grist_names(self._full_builder)\n"
+   "    return self._grist_names\n", "C16-R5"),
+  ("names-parsed-from-user-facing-code", GC,
+   "    return codebuilder.parse_grist_names(self._full_builder)\n",
+   "    return codebuilder.parse_grist_names(self._stale_builder)\n", "C16-R5"),
   ("producer-tuple-swapped", CB, "return (in_value, in_patch.start, table_id, col_id)",
    "return (in_value, in_patch.start, col_id, table_id)", "C16-R3"),
 ]
